@@ -748,3 +748,132 @@ _reg19d = register
 def register(R):  # noqa: F811
     _reg19d(R)
     register_filter(R)
+
+
+# ---------------------------------------------------------------------------
+# Directory walking.  os.walk / os.path.* / filter enter as models (pyvc/ext_C19.py): a walk is a symbolic sequence of
+# (dirpath, dirnames, filenames) triples determined by the root; paths are opaque references built by uninterpreted
+# join / relpath / splitext.  THE ORDER that defines "the i-th file" is the order of find_swcs' result: directories in os.walk
+# order, inside a directory the order of os.walk's filenames list -- the code does not sort.
+# Ghost vocabulary:  SELN(fl, ext) / SELK(fl, ext, m) / SELR(fl, ext, j): the order-preserving selection of the names of the
+# list fl whose extension is ext (characterised by the filter model's axioms);  OFF(root, ext, d) = number of selected files
+# in the first d directories of the walk (recursion).
+X.install()
+SELN = z3.Function("sel_len", _I, _I, _I)
+SELK = z3.Function("sel_pos", _I, _I, _I, _I)
+SELR = z3.Function("sel_rank", _I, _I, _I, _I)
+OFF = z3.Function("walk_off", _I, _I, _I, _I)
+GHOST["path_exists"] = SpecFn(lambda e, a, k: e.sbool(X.EXISTS(X.zref(a[0]))), "path_exists")
+
+
+def swc_filter(extz):
+    return X.DeclaredFilter("names-with-the-extension", [extz], lambda e, x: X.EXTOF(e) == x, SELN, SELK, SELR)
+
+
+def walk_defs(E, rz, xz):
+    d = z3.Int(fresh_name("d"))
+    E.assume(OFF(rz, xz, 0) == 0)
+    E.assume(z3.ForAll([d], z3.Implies(d >= 0, OFF(rz, xz, d + 1) == OFF(rz, xz, d) + SELN(X.WFILES(rz, d), xz)), patterns=[OFF(rz, xz, d + 1)]))
+    E.assumptions.add("ghost definition (find_swcs): OFF(root, ext, d) = number of names with the extension in the first d directories of the walk (recursion)")
+
+
+def _lview(L):
+    from pyvc.values import zint
+
+    if L.items is not None:
+        if L.items:
+            raise X.Unsupported("concrete non-empty list in a walk clause")
+        return z3.IntVal(0), (lambda t: z3.IntVal(0))
+    return zint(L.n), (lambda t: z3.Select(L.cols[0], t))
+
+
+def found_files(L, rz, xz, relpath, upto, with_axioms=True):
+    """the list L holds, directory by directory (the first `upto` of the walk of rz), the joined paths of the selected names"""
+    n, at = _lview(L)
+    d, m, j = z3.Int(fresh_name("d")), z3.Int(fresh_name("m")), z3.Int(fresh_name("j"))
+    fl = lambda t: X.WFILES(rz, t)
+    rr = (lambda t: X.RELPATH(X.WDIR(rz, t), rz)) if relpath else (lambda t: X.WDIR(rz, t))
+    off = lambda t: OFF(rz, xz, t)
+    flt = swc_filter(xz)
+    out = dict(
+        length=n == off(upto),
+        content=z3.ForAll([d, m], z3.Implies(z3.And(d >= 0, d < upto, m >= 0, m < SELN(fl(d), xz)),
+                                            at(off(d) + m) == X.JOIN(rr(d), X.FNAME(fl(d), SELK(fl(d), xz, m))))),
+        offsets=z3.ForAll([d], z3.Implies(z3.And(d >= 0, d <= upto), z3.And(off(d) >= 0, off(d) <= off(upto)))),
+    )
+    if with_axioms:
+        out["selection"] = z3.ForAll([d], z3.Implies(z3.And(d >= 0, d < upto), z3.And(X.FLEN(fl(d)) >= 0, *flt.axioms(fl(d), X.FLEN(fl(d)), lambda t, _d=d: X.FNAME(fl(_d), t)))))
+    return out
+
+
+def register_dirs(R):
+    from pyvc.values import zint
+    from swcgeom.core.population import LazyLoadingTrees, Population
+
+    def find_setup(relpath):
+        return lambda S: dict(root=X.StrRef(S.int("root").z), ext=X.StrRef(S.int("ext").z), relpath=relpath, __ghost__=GHOST)
+
+    def find_entry(E, old):
+        rz, xz = X.zref(old["root"]), X.zref(old["ext"])
+        X.declare_filter(E, swc_filter(xz))
+        walk_defs(E, rz, xz)
+
+    def inv(which):
+        def f(E, v, o):
+            rz, xz = X.zref(o["root"]), X.zref(o["ext"])
+            return found_files(v["swcs"], rz, xz, bool(o["relpath"]), to_z3(v["_k0"], "int"))[which]
+
+        return f
+
+    def post(which):
+        def f(E, v, o):
+            rz, xz = X.zref(o["root"]), X.zref(o["ext"])
+            r = v["result"]
+            if not isinstance(r, PList):
+                return False
+            return found_files(r, rz, xz, bool(o["relpath"]), X.WLEN(rz))[which]
+
+        return f
+
+    def listed_only(E, v, o):
+        """every entry is join(directory, name) of a name of that directory's list that carries the extension"""
+        rz, xz = X.zref(o["root"]), X.zref(o["ext"])
+        d, m = z3.Int(fresh_name("d")), z3.Int(fresh_name("m"))
+        fl = lambda t: X.WFILES(rz, t)
+        return z3.ForAll([d, m], z3.Implies(z3.And(d >= 0, d < X.WLEN(rz), m >= 0, m < SELN(fl(d), xz)),
+                                            z3.And(SELK(fl(d), xz, m) >= 0, SELK(fl(d), xz, m) < X.FLEN(fl(d)), X.EXTOF(X.FNAME(fl(d), SELK(fl(d), xz, m))) == xz,
+                                                   OFF(rz, xz, d) + m < OFF(rz, xz, d + 1))))
+
+    def all_listed(E, v, o):
+        """every name with the extension, of every directory of the walk, is listed (at the position its rank gives)"""
+        rz, xz = X.zref(o["root"]), X.zref(o["ext"])
+        n, at = _lview(v["result"])
+        d, j = z3.Int(fresh_name("d")), z3.Int(fresh_name("j"))
+        fl = lambda t: X.WFILES(rz, t)
+        rr = (lambda t: X.RELPATH(X.WDIR(rz, t), rz)) if o["relpath"] else (lambda t: X.WDIR(rz, t))
+        pos = OFF(rz, xz, d) + SELR(fl(d), xz, j)
+        return z3.ForAll([d, j], z3.Implies(z3.And(d >= 0, d < X.WLEN(rz), j >= 0, j < X.FLEN(fl(d)), X.EXTOF(X.FNAME(fl(d), j)) == xz),
+                                            z3.And(pos >= 0, pos < n, at(pos) == X.JOIN(rr(d), X.FNAME(fl(d), j)))))
+
+    R.add(f"{POP}:Population.find_swcs", prop="C19",
+          variants={"absolute": find_setup(False), "relpath": find_setup(True)},
+          ghost_entry=find_entry,
+          returns=lambda S, fr: S.plist("ref", name="found"),
+          loops={0: dict(invariant=[("length", inv("length")), ("content", inv("content")), ("offsets", inv("offsets")), ("selection", inv("selection"))],
+                         types={"swcs": "ref"})},
+          ensures=[("number-of-files-found", post("length")),
+                   ("i-th-file:directories-in-walk-order-names-in-listing-order-joined-with-the-directory", post("content")),
+                   ("offsets-are-monotone", post("offsets")),
+                   ("selection-is-order-preserving-in-every-directory", post("selection")),
+                   ("only-names-with-the-extension-are-listed", listed_only),
+                   ("every-name-with-the-extension-is-listed", all_listed),
+                   "a-fresh-list :: is_fresh(result)"],
+          notes="os.walk / os.path.join / relpath / splitext / filter are models (pyvc/ext_C19.py); walk, lists and extension symbolic")
+
+
+_reg19e = register
+
+
+def register(R):  # noqa: F811
+    _reg19e(R)
+    register_dirs(R)
